@@ -11,12 +11,12 @@ from . import progs as P
 from . import sem
 
 
-def rec(what, span, text, fileok=True, rendered=True, culprit=None):
+def rec(what, span, text, fileok=True, rendered=True, culprit=None, culprit_lines=None):
     lines = text.split("\n")
     whole = span["s"] == [0, 0, 0] and span["e"] == [0, 0, 0]
     r = {"what": what, "whole": whole, "s": span["s"], "e": span["e"], "lens": [len(x) for x in lines], "textlen": len(text),
          "fileok": fileok, "rendered": rendered, "hasculprit": culprit is not None,
-         "cs": culprit[0] if culprit else 0, "ce": culprit[1] if culprit else 0}
+         "cs": culprit[0] if culprit else 0, "ce": culprit[1] if culprit else 0, "cl": list(culprit_lines) if culprit_lines else [0, 0]}
     return r
 
 
@@ -28,7 +28,7 @@ def run(args):
                        "(token-level mutations / truncations of valid programs, lexical errors, multi-line constructs, end "
                        "of input, inside imported modules) incl. the result of the real Display call, and interrupt spans / "
                        "caught-error positions of runtime failures whose culprit node is known from HmsSem; TLC evaluates "
-                       "InFile, Ordered, Within(culprit), Renderable on every record (TraceSpans); non-trivial = distinct "
+                       "InFile, Ordered, Within(culprit), OnCulpritLines, Renderable on every record (TraceSpans); non-trivial = distinct "
                        "records")
     pool = C.Pool(C.build_worker(), memlimit_kb=6 * 1024 * 1024)
     records, owners = [], []
@@ -49,6 +49,15 @@ def run(args):
                "fn main() {\n  let x = \"\\q\";\n}\n", "fn main() { x = ; }\n", "fn main() {\n  undefined_fn(\n    1,\n    2\n  );\n}\n",
                "fn main() {\n  let a = 1;\n  let b = a +\n    \"s\";\n}\n", "", "\n\n\n", "fn main() { } }", "fn", "fn main(", "§", "fn main() { ~ }",
                "fn main() { let héllo = 1; }", "fn main() { let s = \"héé\" + 1; }", "fn f() {}\n", "let x = 1;\n"]
+    # how the text ENDS decides where "the end of input" is: every cut-off program with every kind of ending (nothing,
+    # blanks, line comment without line feed, closed and unclosed block comment, CR LF, non-ASCII, a lone quote)
+    endings = ["", " ", "\n", "\t", "\r\n", " // cut", "\n// cut", "// é", " /* c */", "/* open", "/**", "/", "\"", "'", "é", "\\"]
+    cuts = [x for x in inputs if x and not x.endswith("\n")][:: (3 if thorough else 12)]
+    for x in cuts:
+        for e in endings:
+            inputs.append(x + e)
+    for e in endings:
+        inputs += ["fn main() {" + e, "fn main() { let x = 1;\n}" + e, "import a from b;" + e, "fn main() { let s = \"a" + e, e]
     inputs = list(dict.fromkeys(inputs))
     B = 100
     for as_import in (False, True):
@@ -71,7 +80,8 @@ def run(args):
     # ---- (b) runtime failures with a known culprit
     progs = [p for p in Fam.nestings(2, rnd, sample=400 if thorough else 150) if p["feats"]["exit"] in ("throw", "fatal")]
     progs += [p for p in Fam.template_programs() if p["id"] in ("t_uncaught", "t_uncaught_in_callee", "t_index_oob", "t_index_oob_neg",
-                                                                 "t_catch_fields")]
+                                                                 "t_catch_fields", "t_uncaught_trailing_if", "t_uncaught_trailing_block", "t_uncaught_trailing_arm",
+                                                                 "t_uncaught_trailing_fn")]
     progs += [p for p in Fam.operator_programs() if p["feats"].get("zero_divisor")]
     cases = sem.run_spec(progs, rep)
     reqs, meta = [], []
@@ -93,7 +103,8 @@ def run(args):
         rep.count()
         cul = spans.get(c["info"].get("p"))
         culprit = (cul["s"][2], cul["e"][2]) if cul else None
-        records.append(rec("interrupt", oc["span"], src, fileok=oc["span"]["f"] == "main", culprit=culprit))
+        records.append(rec("interrupt", oc["span"], src, fileok=oc["span"]["f"] == "main", culprit=culprit,
+                           culprit_lines=(cul["s"][0], cul["e"][0]) if cul else None))
         owners.append({"program": src[:1500], "backend": b, "outcome": oc, "culprit_span": cul})
     # ---- TLC evaluates the predicates on every record
     for r in records:
